@@ -319,6 +319,14 @@ func runC08(ctx *Ctx) *Report {
 					c2.FromRoot, c2.Tree, c2.Alias = true, f[0].Enc(), i%2 == 0
 					cases = append(cases, c2)
 				}
+				if len(f) == 1 {
+					// one root: the massive mode has one block, its report is the simple mode's
+					c3 := c
+					c3.Massive = true
+					cases = append(cases, c3)
+					c3.FromRoot, c3.Tree = true, f[0].Enc()
+					cases = append(cases, c3)
+				}
 			}
 		}
 	}
@@ -389,6 +397,9 @@ func runC09(ctx *Ctx) *Report {
 		if distinctRoots(f) {
 			r := newCase("dry-predicts-real")
 			r.Doc, r.DocText, r.Exts, r.Target, r.Tree = hx(doc), docText(doc), exts, "t", encForest(f)
+			if i%8 == 0 {
+				r.Note = "cli"
+			}
 			rels = append(rels, r)
 		}
 	}
@@ -401,6 +412,9 @@ func runC09(ctx *Ctx) *Report {
 		doc := spell(f, plainSpelling)
 		r := newCase("dry-predicts-real")
 		r.Doc, r.DocText, r.Exts, r.Target, r.Tree = hx(doc), docText(doc), extLists[k%len(extLists)], "t", encForest(f)
+		if k%10 == 0 {
+			r.Note = "cli"
+		}
 		rels = append(rels, r)
 		c := newCase("out")
 		c.Mode, c.Doc, c.DocText, c.Exts, c.Tree = "iter-dry", hx(doc), docText(doc), r.Exts, encForest(f)
